@@ -123,6 +123,8 @@ int main()
                             [](const distribution<double> &y) { return enc(y); })
                 << "\n";
     }
+    else if (type == "cache")
+      std::cout << c12big::load_cache(unsigned(tseed), bytes) << "\n";
     else if (!c12big::dispatch(type, r, bytes))
       std::cout << "bad-op\n";
     std::cout.flush();
